@@ -109,7 +109,8 @@ struct OptRunner {
 			case 4: if constexpr(!std::is_same<T, int>::value) { kill(s); int v = nextv++; c.op("o%d = optional(converting %d)", s, v); slot[s] = c.make<O>(v); ref[s] = v; } break;
 			case 5: case 6: case 7: case 8: pair_op(op - 5, d, s); break;
 			case 9: if(slot[s]) { c.op("o%d = null_opt", s); if(ref[s]) state_diff = true; *slot[s] = frg::null_opt; ref[s].reset(); } break;
-			case 10: if(slot[s]) { int v = nextv++; c.op("o%d.emplace(%d)", s, v); slot[s]->emplace(v); ref[s] = v; } break;
+			case 10: if(slot[s]) { int v = nextv++; c.op("o%d.emplace(%d)", s, v); uint64_t before = reg().serial; if(ref[s]) c.tag("emplace-over-engaged"); slot[s]->emplace(v); ref[s] = v;
+				VCHECK(c, "C17", birth_of(&**slot[s]) > before, "optional<%s>::emplace kept the old object (assigned to it) where std::optional::emplace destroys it and constructs a new one", Traits<T>::n); } break;
 			case 11: if constexpr(!std::is_same<T, int>::value && Traits<T>::copy) { if(slot[s]) { bool eng = t.flip(); int v = nextv++; frg::optional<int> src; if(eng) src = frg::optional<int>(v);
 					c.op("o%d = optional<int>(%s) const&", s, eng ? "engaged" : "empty"); if(ref[s].has_value() != eng) state_diff = true; *slot[s] = src; if(eng) ref[s] = v; else ref[s].reset(); } } break;
 			case 12: if constexpr(!std::is_same<T, int>::value) { if(slot[s]) { bool eng = t.flip(); int v = nextv++; frg::optional<int> src; if(eng) src = frg::optional<int>(v);
@@ -209,7 +210,10 @@ struct VarRunner {
 			case 0: case 1: { int alt = t.pick(4); int v = nextv++; c.op("v%d = variant(alt %d, %d)", s, alt, v); make_state(s, alt, v); break; }
 			case 2: case 3: case 4: case 5: pair_op(op - 2, d, s); break;
 			case 6: case 7: if(slot[s]) { int alt = t.pick(3); int v = nextv++; c.op("v%d.emplace<alt %d>(%d)", s, alt, v); if(idx[s] != alt) state_diff = true;
-				if(alt == 0) slot[s]->emplace<int>(v); else if(alt == 1) slot[s]->emplace<Tracked>(v); else slot[s]->emplace<TB>(v); idx[s] = alt; val[s] = v; } break;
+				uint64_t before = reg().serial; if(idx[s] == alt) c.tag("emplace-same-alternative");
+				if(alt == 0) slot[s]->emplace<int>(v); else if(alt == 1) slot[s]->emplace<Tracked>(v); else slot[s]->emplace<TB>(v); idx[s] = alt; val[s] = v;
+				if(alt >= 1) VCHECK(c, "C17", (alt == 1 ? birth_of(&slot[s]->get<Tracked>()) : birth_of(&slot[s]->get<TB>())) > before,
+					"variant::emplace<alt %d> kept the old object (assigned to it) where std::variant::emplace destroys it and constructs a new one", alt); } break;
 			case 8: if(slot[s]) { int alt = t.pick(3); int v = nextv++; c.op("v%d = alt %d value %d (converting assignment)", s, alt, v); if(idx[s] != alt) state_diff = true;
 				if(alt == 0) *slot[s] = int(v); else if(alt == 1) *slot[s] = Tracked(v); else *slot[s] = TB(v); idx[s] = alt; val[s] = v; } break;
 			case 9: if(slot[s]) { V &alias = *slot[s]; c.op("v%d = v%d (self copy)", s, s); *slot[s] = alias; c.tag("self-assign"); } break;
@@ -448,6 +452,7 @@ void run_tuple(Ctx &c) {
 // ------------------------------------------------------------------------------------------
 // Value-holder batteries over element types the histories above do not use.
 struct Big { uint64_t w[4]; };
+struct Pod { int x; long y; };      // defaulted constructor, members without initialisers
 struct alignas(32) Wide { unsigned char b[32]; };
 struct ChainNode;
 using ChainLink = frg::expected<Err, ChainNode>;
@@ -461,7 +466,7 @@ struct ChainNode {
 
 void run_extra(Ctx &c) {
 	auto &t = c.t;
-	unsigned which = t.pick(5);
+	unsigned which = t.pick(6);
 	int a = 1 + (int)t.pick(6), b = 1 + (int)t.pick(100), d = (int)t.pick(100);
 	c.op("extra battery %u with (%d,%d,%d)", which, a, b, d);
 	c.tagf("extra-%u", which);
@@ -536,6 +541,33 @@ void run_extra(Ctx &c) {
 		*v = 5; *v = *v2; *v2 = VS{};
 		VCHECK(c, "C17", v->is<std::string>() && v->get<std::string>() == std::string((size_t)b, 'z') && !*v2, "variant<int,string> round trip");
 		c.destroy(v2); c.destroy(v); c.destroy(o2); c.destroy(o);
+		break; }
+	case 5: {   // re-initialisation without arguments value-initialises (T()), whatever the storage held before
+		int nz = a | 1; long nl = (long)b | 0x100000001l;
+		c.tag("reinit-value-init");
+		using BI = frg::manual_box<int>; BI *bi = c.make<BI>();
+		std::optional<int> ri;
+		bi->initialize(nz); ri.emplace(nz);
+		VCHECK(c, "C17", **bi == *ri, "manual_box<int>::initialize(%d) holds %d", nz, **bi);
+		bi->destruct(); bi->initialize(); ri.emplace();
+		VCHECK(c, "C17", **bi == *ri, "manual_box<int>: initialize(%d); destruct(); initialize() holds %d, std::optional<int>::emplace() holds %d", nz, **bi, *ri);
+		bi->destruct();
+		using BP = frg::manual_box<Pod>; BP *bp = c.make<BP>();
+		bp->initialize(Pod{nz, nl}); bp->destruct(); bp->initialize();
+		VCHECK(c, "C17", (*bp)->x == 0 && (*bp)->y == 0, "manual_box<pod>: initialize({%d,%ld}); destruct(); initialize() holds {%d,%ld}, T() is {0,0}", nz, nl, (*bp)->x, (*bp)->y);
+		bp->destruct();
+		bp->construct_with([] { return Pod(); });
+		VCHECK(c, "C17", (*bp)->x == 0 && (*bp)->y == 0, "manual_box<pod>::construct_with(Pod()) holds {%d,%ld}", (*bp)->x, (*bp)->y);
+		bp->destruct();
+		using OI = frg::optional<Pod>; OI *o = c.make<OI>(Pod{nz, nl});
+		o->emplace();
+		VCHECK(c, "C17", (*o)->x == 0 && (*o)->y == 0, "optional<pod>: emplace() over {%d,%ld} holds {%d,%ld}, T() is {0,0}", nz, nl, (*o)->x, (*o)->y);
+		using VI = frg::variant<Pod, int>; VI *v = c.make<VI>(Pod{nz, nl});
+		v->emplace<Pod>();
+		VCHECK(c, "C17", v->get<Pod>().x == 0 && v->get<Pod>().y == 0, "variant<pod,int>: emplace<pod>() over {%d,%ld} holds {%d,%ld}", nz, nl, v->get<Pod>().x, v->get<Pod>().y);
+		*v = nz; v->emplace<int>();
+		VCHECK(c, "C17", v->get<int>() == 0, "variant<pod,int>: emplace<int>() over %d holds %d", nz, v->get<int>());
+		c.destroy(v); c.destroy(o);
 		break; }
 	}
 	c.check_san("C17");
